@@ -241,6 +241,12 @@ func WithInternalRoundTimer(rt roundTimer) Opt {
 // for calculating state machine timeouts during consensus.
 // The context value controls the lifecycle of the timer.
 func WithTimeoutStrategy(ctx context.Context, s TimeoutStrategy) Opt {
+	if s == nil {
+		// A round timer without a strategy panics the first time the state machine arms it.
+		return func(*Engine, *tmstate.StateMachineConfig) error {
+			return errors.New("WithTimeoutStrategy: timeout strategy must not be nil")
+		}
+	}
 	return WithInternalRoundTimer(tmstate.NewStandardRoundTimer(ctx, s))
 }
 
